@@ -18,7 +18,7 @@ PROPS = ("C03",)
 
 
 def fixed_cases(tier):
-    return fixprops.fixed_cases_for(tier)
+    return [{"k": "docs_table"}] + fixprops.fixed_cases_for(tier)
 
 
 def n_generated(tier):
@@ -34,9 +34,59 @@ def _nontrivial(obs, new):
 
 
 def run_case(case, tier):
+    if case.get("k") == "docs_table":
+        return _docs_table(case)
     res, obs = fixprops.run_props(case, tier, PROPS, _nontrivial)
     return res
 
 
 def shrink(case, sig, tier, budget):
     return fixprops.shrink_generic(run_case, case, sig, tier, budget)
+
+
+def _docs_table(case):
+    """static part (exhaustive over the rule set): docs tag line of every rule vs the rule object's metadata"""
+    import glob
+    import os
+    import re
+
+    from harness import vsgapi
+
+    res = {"labels": {}, "nontrivial": [], "failures": [], "evals": 0}
+    tbl = {}
+    for fn in sorted(glob.glob(os.path.join(vsgapi.REPO, "docs", "*_rules.rst"))):
+        lines = open(fn).read().split("\n")
+        for i in range(len(lines) - 1):
+            if re.fullmatch(r"[a-z_0-9]+_\d\d\d", lines[i]) and lines[i + 1].startswith("###"):
+                j = i + 2
+                while j < len(lines) and not lines[j].strip():
+                    j += 1
+                tbl[lines[i]] = re.findall(r"\|([a-z_0-9:]+)\|", lines[j]) if j < len(lines) else []
+    rules = [r for r in vsgapi.rule_list.load_rules() if not r.deprecated and not r.proposed]
+    for r in rules:
+        res["evals"] += 1
+        tags = tbl.get(r.unique_id)
+
+        def fail(kind, detail):
+            res["failures"].append({"sig": {"kind": kind, "site": r.unique_id}, "detail": detail, "case": {"k": "docs_table"}})
+
+        if tags is None:
+            fail("rule_not_documented", {})
+            continue
+        res["nontrivial"].append("doc:" + r.unique_id)
+        ph = [int(t[6:]) for t in tags if t.startswith("phase_")]
+        if ph and ph[0] != r.phase:
+            fail("documented_phase_differs", {"docs": ph[0], "rule": r.phase})
+        if ("unfixable" in tags) != (not r.fixable):
+            fail("documented_fixability_differs", {"docs": tags, "fixable": r.fixable})
+        if ("disabled" in tags) != bool(r.disable):
+            fail("documented_default_enable_differs", {"docs": tags, "disable": r.disable})
+        if ("warning" in tags) != (r.severity.type == "warning"):
+            fail("documented_severity_differs", {"docs": tags, "severity": r.severity.name})
+        dg = set(t for t in tags if t in ("structure", "whitespace", "blank_line", "indent", "alignment", "case", "naming", "length"))
+        g = set(x.split("::")[0] for x in r.groups)
+        if dg != g:
+            fail("documented_group_differs", {"docs": sorted(dg), "groups": sorted(r.groups)})
+    res["labels"]["docs_table_rules"] = res["evals"]
+    res["sample"] = {"kind": "docs_table", "rules_compared": res["evals"], "example": {"rule": rules[0].unique_id, "docs_tags": tbl.get(rules[0].unique_id), "phase": rules[0].phase, "groups": rules[0].groups}}
+    return res
